@@ -176,10 +176,14 @@ class Opt(Ty):
         self.t = t
         self.key = 'opt[%s]' % t.key
 
+        nm = _san(t.key)
+        self._nm = nm
+
         def build():
-            d = z3.Datatype('Opt_' + _san(t.key))
-            d.declare('none')
-            d.declare('some', ('val', t.sort()))
+            # constructor / accessor names are unique per instance (cvc5 does not accept overloaded constructor names)
+            d = z3.Datatype('Opt_' + nm)
+            d.declare('none_' + nm)
+            d.declare('some_' + nm, ('val_' + nm, t.sort()))
             return d.create()
         self.dt = _mkdt(self.key, build)
 
@@ -187,16 +191,16 @@ class Opt(Ty):
         return self.dt
 
     def none(self):
-        return self.dt.none
+        return getattr(self.dt, 'none_' + self._nm)
 
     def some(self, z):
-        return self.dt.some(z)
+        return getattr(self.dt, 'some_' + self._nm)(z)
 
     def is_none(self, z):
-        return self.dt.is_none(z)
+        return getattr(self.dt, 'is_none_' + self._nm)(z)
 
     def val(self, z):
-        return self.dt.val(z)
+        return getattr(self.dt, 'val_' + self._nm)(z)
 
 
 class Tuple(Ty):
@@ -204,9 +208,12 @@ class Tuple(Ty):
         self.ts = list(ts)
         self.key = 'tup[%s]' % ','.join(t.key for t in self.ts)
 
+        nm = _san(self.key)
+        self._nm = nm
+
         def build():
-            d = z3.Datatype('Tup_' + _san(self.key))
-            d.declare('mk', *[('f%d' % i, t.sort()) for i, t in enumerate(self.ts)])
+            d = z3.Datatype('Tup_' + nm)
+            d.declare('mk_' + nm, *[('f%d_%s' % (i, nm), t.sort()) for i, t in enumerate(self.ts)])
             return d.create()
         self.dt = _mkdt(self.key, build)
 
@@ -214,10 +221,10 @@ class Tuple(Ty):
         return self.dt
 
     def mk(self, zs):
-        return self.dt.mk(*zs)
+        return getattr(self.dt, 'mk_' + self._nm)(*zs)
 
     def get(self, z, i):
-        return getattr(self.dt, 'f%d' % i)(z)
+        return getattr(self.dt, 'f%d_%s' % (i, self._nm))(z)
 
 
 class Seq(Ty):
@@ -227,9 +234,12 @@ class Seq(Ty):
         self.elem = elem
         self.key = 'seq[%s]' % elem.key
 
+        nm = _san(elem.key)
+        self._nm = nm
+
         def build():
-            d = z3.Datatype('Seq_' + _san(elem.key))
-            d.declare('mk', ('len', z3.IntSort()), ('arr', z3.ArraySort(z3.IntSort(), elem.sort())))
+            d = z3.Datatype('Seq_' + nm)
+            d.declare('mkseq_' + nm, ('len_' + nm, z3.IntSort()), ('arr_' + nm, z3.ArraySort(z3.IntSort(), elem.sort())))
             return d.create()
         self.dt = _mkdt(self.key, build)
 
@@ -237,13 +247,13 @@ class Seq(Ty):
         return self.dt
 
     def mk(self, n, arr):
-        return self.dt.mk(n, arr)
+        return getattr(self.dt, 'mkseq_' + self._nm)(n, arr)
 
     def len(self, z):
-        return self.dt.len(z)
+        return getattr(self.dt, 'len_' + self._nm)(z)
 
     def arr(self, z):
-        return self.dt.arr(z)
+        return getattr(self.dt, 'arr_' + self._nm)(z)
 
 
 class Set(Ty):
@@ -262,12 +272,21 @@ class Map(Ty):
         self.k, self.v = k, v
         self.key = 'map[%s,%s]' % (k.key, v.key)
 
+        nm = _san(self.key)
+        self._nm = nm
+
         def build():
-            d = z3.Datatype('Map_' + _san(self.key))
-            d.declare('mk', ('has', z3.ArraySort(k.sort(), z3.BoolSort())),
-                      ('val', z3.ArraySort(k.sort(), v.sort())))
+            d = z3.Datatype('Map_' + nm)
+            d.declare('mkmap_' + nm, ('has_' + nm, z3.ArraySort(k.sort(), z3.BoolSort())),
+                      ('mval_' + nm, z3.ArraySort(k.sort(), v.sort())))
             return d.create()
         self.dt = _mkdt(self.key, build)
+
+    def has(self, z):
+        return getattr(self.dt, 'has_' + self._nm)(z)
+
+    def mval(self, z):
+        return getattr(self.dt, 'mval_' + self._nm)(z)
 
     def sort(self):
         return self.dt
